@@ -159,6 +159,15 @@ def names_rule(ctx):
                     kw = {k.arg: k.value for k in n.keywords}
                     pv = kw.get("parameters")
                     ok = (pv is not None and isinstance(pv, _ast.Attribute) and pv.attr == "parameters") or None in kw
+                    if not ok:
+                        # judged only when the set reaches the user's prior / likelihood from here (a scratch set that never does is not part of the target)
+                        tgt_ = next((a_.targets[0].id for a_ in walk_no_nested(m.node) if isinstance(a_, _ast.Assign) and a_.value is n and len(a_.targets) == 1
+                                     and isinstance(a_.targets[0], _ast.Name)), None)
+                        reaches = tgt_ is None or any(isinstance(c_, _ast.Call) and isinstance(c_.func, _ast.Attribute) and c_.func.attr in ("log_prior", "log_likelihood", "_log_likelihood", "_log_prior")
+                                                      and any(isinstance(x_, _ast.Name) and x_.id == tgt_ for x_ in c_.args) for c_ in walk_no_nested(m.node))
+                        if not reaches:
+                            ctx.prove("C05.names", m.ident, loc_of(m, n), f"{n.func.id}(...) without names is never handed to the user's prior / likelihood in this function", disc=f"{n.func.id}#scratch{n.lineno - m.node.lineno}")
+                            continue
                     rank = sum(1 for o in walk_no_nested(m.node) if isinstance(o, _ast.Call) and isinstance(o.func, _ast.Name) and o.func.id == n.func.id and o.lineno < n.lineno)
                     ctx.decide(ok, "C05.names", m.ident, loc_of(m, n), f"{n.func.id}(...) receives the run's parameter names",
                                f"{n.func.id}(...) at line {n.lineno} is built without parameters=: the set handed to the user's prior / likelihood from here has the default names "
@@ -343,12 +352,12 @@ def run(ctx):
         for n_ in walk_no_nested(f_.node):
             if isinstance(n_, _ast2.Call) and isinstance(n_.func, _ast2.Attribute) and n_.func.attr in ("log_p_t", "log_p"):
                 n_lpt += 1
-                if f_.name != "log_prob":
+                if f_.name == "mutate":  # a kernel driver
                     bad_lpt.append((f_, n_))
     ctx.floor("uses of the native-space tempered density inside samplers", n_lpt, 2)
     ctx.decide(not bad_lpt, "C05.id", "aspire.samplers", loc_of(bad_lpt[0][0], bad_lpt[0][1]) if bad_lpt else "src/aspire/samplers",
-               f"the native-space tempered density is used by the samplers' log_prob() target builders only ({n_lpt} uses)",
-               (f"{bad_lpt[0][0].ident} calls {_ast2.unparse(bad_lpt[0][1])[:50]} outside log_prob(): that value lacks log|det dx/dz| of the preconditioning transform (and the NaN map); handed to "
+               f"no kernel driver (mutate) uses the native-space tempered density: kernels get their densities from log_prob() ({n_lpt} uses, all outside mutate)",
+               (f"{bad_lpt[0][0].ident} calls {_ast2.unparse(bad_lpt[0][1])[:50]} in a kernel driver: that value lacks log|det dx/dz| of the preconditioning transform (and the NaN map); handed to "
                 "a kernel next to values of log_prob() -- the pre-computed density of the starting points, say -- the first accept / reject of every walker compares two different densities") if bad_lpt else "",
                disc="native-density")
     # the log|det dx/dz| term is the preconditioning transform's inverse log-Jacobian
